@@ -489,6 +489,34 @@ def listing_predicates(R, ctx, rule='R06.7', filter_clause=True):
                 "log files and decide which file a restart with append continues", where=x.loc(bb))
     if nsites < 1:
         raise CheckError(f"{rule}: the listing in latest_timestamp_file was not found")
+    # the same for EVERY listing of the family in the crate: the suffix handed to FileSpec::list_of_files is the configured one (a field / getter of the
+    # file spec) or the constant `gz` of the compressed twins - never None or another constant
+    nall = 0
+    for x in f.fn_bodies():
+        if root_fn(x.path) == b.path or x.promoted is not None:
+            continue
+        for bb, t in x.calls():
+            if not callee_name(t).endswith('FileSpec::list_of_files'):
+                continue
+            nall += 1
+            px = ctx.ip.prov(x.path)
+            roots = set(px.op_roots(t['args'][2]))
+            txt = ' '.join(map(str, roots))
+            # `self.o_suffix.as_deref()`: the receiver of the adaptor is the suffix field of the file spec
+            field_ok = False
+            for r_ in roots:
+                if r_[0] == 'via' and isinstance(r_[2], int):
+                    blk = x.blocks[r_[2]]
+                    ops = [a_ for a_ in blk['term'].get('args', []) if a_['k'] in ('copy', 'move')]
+                    if any('o_suffix' in place_fields(a_['place']) for a_ in ops) or \
+                            any(s_['k'] == 'assign' and s_['rv']['k'] == 'ref' and 'o_suffix' in place_fields(s_['rv']['place']) for bl_ in x.blocks for s_ in bl_['stmts']):
+                        field_ok = True
+            okc = (bool(re.search(r"get_suffix|FileLogWriterConfig::suffix|'gz'|\"gz\"", txt)) or field_ok) and 'Option::None' not in txt
+            R.check(rule, f"{root_fn(x.path)}|suffix-of-listing", okc, "family listing asked for the configured suffix / gz",
+                    f"{x.path} lists the family with suffix {sorted(map(str, roots))[:3]}: neither the configured suffix nor `gz`, so files of other extensions count as log files",
+                    where=x.loc(bb))
+    if nall < 2:
+        raise CheckError(f"{rule}: only {nall} further call sites of FileSpec::list_of_files found")
 
 
 def timestamp_parse_total(R, ctx, rule='R14.2'):
